@@ -317,6 +317,75 @@ pub fn run(args: &[String]) {
       }
     }
   }
+  // ---- the same clause through the flat configuration: SignalConfig / IdlerConfig::try_as_beam with phi_deg != 0 and
+  //      theta_external_deg (the azimuth must be in place BEFORE Snell's law is solved), and with theta_deg
+  let pm_all = [PMType::Type0_o_oo, PMType::Type0_e_ee, PMType::Type1_e_oo, PMType::Type2_e_eo, PMType::Type2_e_oe];
+  for (cid, crystal) in crystals.iter() {
+    for (k, pm) in pm_all.iter().enumerate() {
+      for which in ["signal", "idler"] {
+        for j in 0..1.max(n_snell / 2) {
+          let ct = if j % 2 == 0 { 30.0 * PI / 180.0 } else { rng.range(0.0, PI / 2.0) };
+          let cp = rng.range(0.0, 2.0 * PI);
+          let t_c = if rng.coin() { 20.0 } else { rng.range(-50.0, 200.0) };
+          let mut setup = setup_of_t(crystal, ct, cp, t_c);
+          setup.pm_type = *pm;
+          let (wlo, whi) = window(crystal);
+          let lambda = rng.range(wlo, whi);
+          let phi_deg = match (k + j) % 4 { 0 => 60.0, 1 => rng.range(5.0, 355.0), 2 => -rng.range(5.0, 175.0), _ => 360.0 + rng.range(5.0, 80.0) };
+          let te_deg = match j % 3 { 0 => rng.range(0.5, 80.0), 1 => 1.0, _ => -rng.range(0.5, 80.0) };
+          let pol = if which == "signal" { pm.signal_polarization() } else { pm.idler_polarization() };
+          let st = setup.clone();
+          let r = guarded(move || {
+            let beam: Beam = if which == "signal" {
+              SignalConfig { wavelength_nm: lambda * 1e9, phi_deg, theta_deg: None, theta_external_deg: Some(te_deg), waist_um: 100.0,
+                             waist_position_um: AutoCalcParam::default() }.try_as_beam(&st).map(|b| b.as_beam())
+            } else {
+              IdlerConfig { wavelength_nm: lambda * 1e9, phi_deg, theta_deg: None, theta_external_deg: Some(te_deg), waist_um: 100.0,
+                            waist_position_um: AutoCalcParam::default() }.try_as_beam(&st).map(|b| b.as_beam())
+            }.map_err(|e| e.to_string())?;
+            let back = *(beam.theta_external(&st) / RAD);
+            let ti = *(beam.theta_internal() / RAD);
+            let n = *beam.refractive_index(beam.frequency(), &st);
+            let ind = *st.crystal.get_indices(beam.vacuum_wavelength(), st.temperature);
+            let d = beam.direction().into_inner();
+            Ok::<_, String>((back, ti, n, [ind.x, ind.y, ind.z], [d.x, d.y, d.z], *(beam.phi() / RAD), *(beam.vacuum_wavelength() / M), pol_name(beam.polarization())))
+          });
+          let gen = format!("config_{}", which);
+          let te = *(te_deg * DEG / RAD);
+          let bphi = *(phi_deg * DEG / RAD);
+          match r {
+            Ok(Ok((back, ti, n, ind, d, phi, weff, bpol))) => emit(json!({
+              "kind": "snell", "id": cid, "pol": bpol, "want_pol": pol_name(pol), "pm": format!("{:?}", pm), "ct": fx(ct), "cp": fx(cp), "tc": fx(t_c),
+              "lambda": fx(weff), "weff": fx(weff), "bphi": fx(bphi), "phi_deg": fx(phi_deg), "phi": fx(phi), "te": fx(te), "te_deg": fx(te_deg),
+              "back": fx(back), "ti": fx(ti), "n": fx(n), "ind": fxs(&ind), "dir": fxs(&d), "gen": gen,
+            })),
+            Ok(Err(msg)) | Err(msg) => emit(json!({
+              "kind": "snell", "id": cid, "pol": pol_name(pol), "ct": fx(ct), "cp": fx(cp), "tc": fx(t_c), "lambda": fx(lambda),
+              "bphi": fx(bphi), "te": fx(te), "te_deg": fx(te_deg), "panic": msg, "gen": gen,
+            })),
+          }
+          // theta_deg path: angles as requested
+          if j == 0 {
+            let th_deg = rng.range(-40.0, 40.0);
+            let st = setup.clone();
+            let r = guarded(move || {
+              let beam: Beam = if which == "signal" {
+                SignalConfig { wavelength_nm: lambda * 1e9, phi_deg, theta_deg: Some(th_deg), theta_external_deg: None, waist_um: 100.0,
+                               waist_position_um: AutoCalcParam::default() }.try_as_beam(&st).map(|b| b.as_beam())
+              } else {
+                IdlerConfig { wavelength_nm: lambda * 1e9, phi_deg, theta_deg: Some(th_deg), theta_external_deg: None, waist_um: 100.0,
+                              waist_position_um: AutoCalcParam::default() }.try_as_beam(&st).map(|b| b.as_beam())
+              }.map_err(|e| e.to_string())?;
+              Ok::<_, String>(state(&beam))
+            });
+            emit(json!({"kind": "cfgangles", "id": cid, "which": which, "phi_deg": fx(phi_deg), "theta_deg": fx(th_deg),
+                        "phi_req": fx(*(phi_deg * DEG / RAD)), "theta_req": fx(*(th_deg * DEG / RAD)),
+                        "state": match r { Ok(Ok(v)) => v, _ => Value::Null }}));
+          }
+        }
+      }
+    }
+  }
   // ---- unit conversions
   for i in 0..(10 + n_hist) {
     let lambda = if i == 0 { 1550e-9 } else { rng.log_range(1e-8, 1e-3) };
